@@ -103,8 +103,26 @@ func aimProbes(r *rng.R, st snapStream, stream int) []areq {
 	add("_HLS_msn", u(next-1), "_HLS_msn", "abc")
 	ps = append(ps, areq{Kind: "media", Stream: stream, Query: append(q("_HLS_skip", "YES", "token", "t"), qitem{Bad: true})})
 	ps = append(ps, areq{Kind: "media", Stream: stream, Query: append(q("_HLS_msn", u(next-1)), qitem{Bad: true})})
+	add("_HLS_msn", u(next-1), "_HLS_part", "0", "my key", "a b", "token", "x/y z")
+	add("_HLS_skip", "YES", "_HLS_msn", u(next), "_HLS_part", "0", "t", "a+b c")
+	add("q r", "1 2")
 	ps = append(ps, areq{Kind: "media", Stream: stream})
+	// the same decoded query arrives in one of its equivalent raw spellings (percent-encoded
+	// characters in directive keys, in other keys, in values; "+" or %20 for a space)
+	for i := range ps {
+		if len(ps[i].Query) > 0 {
+			ps[i].Enc = pickEnc(r)
+		}
+	}
 	return ps
+}
+
+// pickEnc: 0 (plain) in 2 of 5 cases, else one of the four modes of rawQueryEnc with a random seed
+func pickEnc(r *rng.R) uint64 {
+	if r.Bool(2, 5) {
+		return 0
+	}
+	return uint64(1+r.Intn(4)) + 8*uint64(1+r.Intn(1<<20))
 }
 
 type runner func(sc scenario, work string) result
@@ -426,7 +444,8 @@ func main() {
 		"evaluations":         len(scens),
 		"distinct_nontrivial": distinct,
 		"rule": "scenarios from splitmix64(seed): (seq) write histories of 2-40 frames on LL muxers (1-2 streams, segmentCount 7-9) with a grid of " +
-			"~80 requests around the playlist; (sched) up to 3 (thorough 4) requesters x 6 placements of their two macro steps around the writer's " +
+			"~80 requests around the playlist, each decoded query rendered in one of its equivalent raw spellings (plain; percent-encoded characters in the " +
+			"_HLS_ prefix of all / some directive keys, upper or lower hex; encoded other keys and values; + or %20 for a space); (sched) up to 3 (thorough 4) requesters x 6 placements of their two macro steps around the writer's " +
 			"Lock;rotate;Unlock | Broadcast, 1-2 rotations; (close) 0-3 pending requests of each kind x Close before data/mid segment/mid part x 3 orders " +
 			"of re-check vs stream-marked-closed, RAM and Directory, LL/FMP4/MPEGTS; distinct by SHA-256 of the scenario; non-trivial = (seq) at least one " +
 			"Ready, one Block and one 400 among the well-formed blocking probes, (sched) at least one requester slept and a rotation happened, " +
@@ -593,7 +612,11 @@ func genSched(seed uint64, n int, thorough bool, work string, errs *[]string) []
 					if (slot+len(out))%2 == 0 && !thorough {
 						continue // halve the systematic part in the quick tier
 					}
-					out = append(out, scenario{Kind: "sched", Cfg: b.cfg, History: b.h, Reqs: []areq{rq},
+					rq1 := rq
+					if len(rq1.Query) > 0 && (slot+len(out))%3 != 0 {
+						rq1.Enc = uint64(1+(slot+len(out))%4) + 8*uint64(1+len(out))
+					}
+					out = append(out, scenario{Kind: "sched", Cfg: b.cfg, History: b.h, Reqs: []areq{rq1},
 						Slots: []int{slot}, Frames: []bool{idr, false}})
 				}
 			}
@@ -609,7 +632,11 @@ func genSched(seed uint64, n int, thorough bool, work string, errs *[]string) []
 		}
 		sc := scenario{Kind: "sched", Cfg: b.cfg, History: b.h}
 		for j := 0; j < k; j++ {
-			sc.Reqs = append(sc.Reqs, b.reqs[r.Intn(len(b.reqs))])
+			rq := b.reqs[r.Intn(len(b.reqs))]
+			if len(rq.Query) > 0 {
+				rq.Enc = pickEnc(r)
+			}
+			sc.Reqs = append(sc.Reqs, rq)
 			sc.Slots = append(sc.Slots, r.Intn(6))
 		}
 		nf := 1 + r.Intn(2)
@@ -766,7 +793,11 @@ func genClose(seed uint64, n int, thorough bool, work string, errs *[]string) []
 		sc := scenario{Kind: "close", Cfg: b.cfg, History: b.h, Order: orders[r.Pick(3, 3, 1)], PostProbes: r.Bool(3, 4)}
 		k := 2 + r.Intn(2)
 		for j := 0; j < k; j++ {
-			sc.Reqs = append(sc.Reqs, kinds[r.Intn(len(kinds))])
+			rq := kinds[r.Intn(len(kinds))]
+			if len(rq.Query) > 0 {
+				rq.Enc = pickEnc(r)
+			}
+			sc.Reqs = append(sc.Reqs, rq)
 		}
 		out = append(out, sc)
 	}
